@@ -513,8 +513,25 @@ def bundle_cases(rng, tier, quick, thorough, special=None):
                 v = rng.choice(ids)
             else:
                 v = rng.choice([2, 3, 4, 7])     # possibly absent from e and from the point
-            cases.append((e, p, v))
+            if rng.random() < 0.12:
+                # variable names that contain one another (v2, v22, v222; v3, v32): a name test that is not an
+                # exact comparison confuses them
+                e2, p2, v2 = rename_vars(e, SUBSTRING_NAMES), [(SUBSTRING_NAMES.get(k, k), x) for k, x in p], SUBSTRING_NAMES.get(v, v)
+                cases.append((e2, p2, v2))
+            else:
+                cases.append((e, p, v))
     return cases
+
+
+SUBSTRING_NAMES = {2: 2, 3: 22, 4: 222, 5: 3, 6: 32, 7: 223}
+
+
+def rename_vars(e, m):
+    if e[0] == 'V':
+        return ('V', m.get(e[1], e[1]))
+    if e[0] == 'C':
+        return e
+    return sx.with_children(e, [rename_vars(c, m) for c in sx.children(e)])
 
 
 def power_shortcut_cases():
@@ -701,6 +718,8 @@ def check_routes(ctx, prop):
     rep.stats.update({'at_outcome_' + k: v for k, v in kinds.items()})
     if prop == 'C17':
         bad_parameters(ctx, rep)
+    if prop == 'C06':
+        object_equalities(rep, [(e, p, v) for e, p, v, _ in bundles])
     if prop in ('C03', 'C04', 'C06', 'C07'):
         import props2
         keep = {'C03': ('pat', 'dat'), 'C04': ('located', 'dfat', 'at'),
@@ -710,6 +729,34 @@ def check_routes(ctx, prop):
         props2.history_correspondence(ctx, rep, sizes(tier, 300, 5000), keep, maxlen=sizes(tier, 12, 30),
                                       what='sequence', disturb=disturb)
     return rep
+
+
+def object_equalities(rep, cases):
+    """the last sentence of C06, on the implementation's own objects: Differential(e).component(v) ==
+    Partial(e, v) and Differential(e).at(p) == LocatedDifferential(e, p), early or late, both ways
+    round and with equal hashes (theorems C06_component_equals_partial / C06_at_equals_located say so
+    of the object model; TieObj ties __eq__/__hash__ to it)"""
+    b = Batch()
+    idxs = []
+    for e, p, v in cases:
+        idxs.append(b.add('OBJEQ %d %s %s' % (v, sx.point_sx(p), sx.to_sx(e))))
+    b.run(model=False)
+    for i in idxs:
+        r = b.impl[i]
+        rep.stats['object_equality_cases'] += 1
+        if not r.startswith('OBJEQ'):
+            if r.startswith('ERROR'):
+                rep.oracle_fail('runner error on an object-equality case: %s' % r, b, [i])
+            continue
+        for item in r.split(' ')[1:]:
+            k, _, val = item.partition('=')
+            if val in ('false', 'notbool'):
+                what = ('Differential(e, compute_early=%s).component(v) == Partial(e, v, compute_early=%s)' % (k[4] == '1', k[5] == '1')
+                        if k.startswith('comp') else
+                        'Differential(e, compute_early=%s).at(p) == LocatedDifferential(e, p)' % (k[2] == '1'))
+                rep.oracle_fail('%s is %s (or the hashes differ)' % (what, val), b, [i])
+            elif val == 'true':
+                rep.stats['object_equalities_true'] += 1
 
 
 def bad_parameters(ctx, rep):
